@@ -24,7 +24,16 @@ SpectroscopicSightLineGroup, SpectroscopicFibreOpticGroup, BolometerCamera):
     overwrite, reverse, pop, insert; ndarrays overwritten in place) and the complete observable group state (members
     and order, len, parents, name lookup, every getter, whole member snapshots) must stay exactly as it was; add_*()
     must not change lists the caller passed earlier; one list given to two groups must not couple them; containers
-    returned by getters / slice lookup are mutated and the group must be unaffected.
+    returned by getters / slice lookup are mutated and the group must be unaffected;
+  * initial parent states: every observer offered through any entry point (constructor, observers=, sight_lines=,
+    foil_detectors=, add_*) starts in one of: no parent / child of the world / child of a plain Node / child of ANOTHER
+    group of the same class / member of another group / already a child of THIS group / already a member (re-add) /
+    listed twice in one assignment. Judged: an accepted observer is a member where the call put it and its parent is
+    the group; all later ops (lookup, broadcast, observe) run against the resulting membership. Classified on the
+    unchanged tree and therefore NOT judged: re-adding a member keeps a second entry (add_observer / add_foil_detector
+    append unconditionally), a list naming an observer twice is stored as given, a duplicated member is observed once
+    per entry; and the FORMER group of an observer that moved to another group (it keeps a stale entry: out of the
+    single-group domain, see ASSUMPTIONS).
 
 The oracle shares no code with cherab: expectations are computed from the case description and from values read
 directly from the member observers (Raysect objects).
@@ -70,7 +79,10 @@ THOROUGH = dict(cases=300000, workers=16, timecap=300)
 REQUIRED = {"registry": 7, "assign_scalar": 300, "assign_seq": 1200, "wronglen": 3000, "getter": 10000,
             "snapshot_members": 20000, "lookup_index": 500, "lookup_slice": 800, "lookup_name": 300, "invariant": 5000,
             "hook_invariant": 5000, "foreign": 500, "observe_members": 50, "history_ops": 5000, "random_histories": 50,
-            "alias_container": 200, "alias_values": 800, "alias_add": 100, "alias_getter": 800, "alias_two_groups": 60}
+            "alias_container": 200, "alias_values": 800, "alias_add": 100, "alias_getter": 800, "alias_two_groups": 60,
+            "entry_states": 1500, "entry:already-parented-to-this-group": 50, "entry:already-a-member": 100,
+            "entry:member-of-another-group": 50, "entry:parented-to-another-group": 50, "entry:parented-to-world": 50,
+            "entry:parented-to-a-node": 50, "entry:no-parent": 300, "dup_assign": 100}
 
 CLASSES = ["SightLineGroup", "FibreOpticGroup", "PixelGroup", "TargettedPixelGroup",
            "SpectroscopicSightLineGroup", "SpectroscopicFibreOpticGroup", "BolometerCamera"]
@@ -313,6 +325,7 @@ def _gen_member(rng, cname, i):
     elif r < 0.85:
         name = NAME_ALPHABET[int(rng.integers(len(NAME_ALPHABET)))]
     spec = {"name": name, "init": {}}
+    spec["pstate"] = "none" if rng.random() < 0.5 else PSTATES[int(rng.integers(1, len(PSTATES)))]
     if cname == CAMERA:
         spec["name"] = name if name is not None else "det%d" % i       # BolometerFoil requires a str id
         spec["mtype"] = "BolometerIRVB" if rng.random() < 0.12 else "BolometerFoil"
@@ -387,16 +400,22 @@ def _gen_history(rng, cname, tier):
         n = len(members)
         r = rng.random()
         if r < 0.12 and len(pool) < cap:
-            pool.append(_gen_member(rng, cname, len(pool)))
             via = paths["add"][int(rng.integers(len(paths["add"])))]
-            ops.append({"op": "add", "m": len(pool) - 1, "via": via})
-            members.append(len(pool) - 1)
+            if members and rng.random() < 0.15:
+                idx = members[int(rng.integers(len(members)))]         # re-add an observer that is already a member
+            else:
+                pool.append(_gen_member(rng, cname, len(pool)))
+                idx = len(pool) - 1
+            ops.append({"op": "add", "m": idx, "via": via})
+            members.append(idx)                                        # (the unchanged code keeps a second entry)
         elif r < 0.20:
             # assign a new member list: random subset/permutation of the pool (possibly with fresh members)
             if len(pool) < cap and rng.random() < 0.4:
                 pool.append(_gen_member(rng, cname, len(pool)))
             k = int(rng.integers(0, min(len(pool), 6) + 1))
             ms = [int(i) for i in rng.permutation(len(pool))[:k]]
+            if ms and rng.random() < 0.12:
+                ms.insert(int(rng.integers(len(ms) + 1)), ms[int(rng.integers(len(ms)))])   # same observer listed twice
             via = paths["set"][int(rng.integers(len(paths["set"])))]
             kind = "list" if cname == CAMERA else ["list", "tuple"][int(rng.integers(2))]
             ops.append({"op": "set_members", "ms": ms, "via": via, "kind": kind})
@@ -494,6 +513,15 @@ def fixed_cases(tier):
                     for kind in _seq_kinds(attr):
                         for L in _wrong_lengths(n):
                             ops.append(_gen_wronglen(rng, attr, n, kind, L))
+                    if ATTRS[attr]["type"] in ("int", "float"):           # both ends of the member-level valid range
+                        lo, hi = ATTRS[attr]["lo"], ATTRS[attr]["hi"]
+                        for kind in _kinds(attr):
+                            if kind == "scalar":
+                                ops.append({"op": "assign", "attr": attr, "kind": "scalar", "value": lo})
+                                ops.append({"op": "assign", "attr": attr, "kind": "scalar", "value": hi})
+                            else:
+                                ops.append({"op": "assign", "attr": attr, "kind": kind, "value": [(lo, hi)[i % 2] for i in range(n)]})
+                                ops.append({"op": "assign", "attr": attr, "kind": kind, "value": [(hi, lo)[i % 2] for i in range(n)]})
                     ops.append(_gen_assign(rng, attr, n, "list"))
                 else:
                     ops.append({"op": "generic", "attr": attr})
@@ -541,6 +569,38 @@ def fixed_cases(tier):
             for k in (0, 1, 3):
                 cases.append({"kind": "alias", "cls": cname, "in_world": False, "pool": [], "init": {"via": "add", "n0": 0},
                               "ops": [{"op": "two_groups", "via": via, "k": k}]})
+    # every initial parent state of the offered observers x every member entry point; then re-add, duplicate listing,
+    # lookups, a broadcast and an observation on the resulting group
+    for cname in CLASSES:
+        paths = _member_paths(cname)
+        inits = ["add", "set_list"] if cname == CAMERA else ["ctor_list", "ctor_tuple", "add", "set_list", "set_tuple"]
+        for ps in PSTATES:
+            rng = np.random.default_rng([15, 44, zlib.crc32((cname + ps).encode())])
+            pool = [_gen_member(rng, cname, i) for i in range(5)]
+            for i, p in enumerate(pool):
+                p["name"] = "ps%d" % i
+                p["pstate"] = ps
+                if p.get("mtype") == "BolometerIRVB":
+                    p["mtype"] = "BolometerFoil"
+            for via0 in inits:
+                for addvia in paths["add"]:
+                    for setvia in paths["set"]:
+                        ops = [{"op": "lookup", "slices": [[None, None, None]]},
+                               {"op": "add", "m": 2, "via": addvia},
+                               {"op": "lookup", "slices": [[None, None, None]]},
+                               {"op": "observe", "reps": 1, "ps": 3, "spt": 2, "bins": 1},
+                               {"op": "add", "m": 0, "via": addvia},                       # re-add a member
+                               {"op": "lookup", "slices": [[None, None, None]]},
+                               {"op": "set_members", "ms": [3, 1, 4], "via": setvia, "kind": "list"},
+                               {"op": "lookup", "slices": [[None, None, -1]]},
+                               {"op": "set_members", "ms": [0, 1, 0, 2], "via": setvia, "kind": "list"},   # listed twice
+                               {"op": "lookup", "slices": [[None, None, None]]},
+                               {"op": "read_all"}]
+                        if cname != CAMERA:
+                            ops.insert(3, _gen_assign(rng, "pixel_samples", 3, "list"))
+                            ops.insert(9, _gen_assign(rng, "spectral_bins", 3, "scalar"))
+                        cases.append({"kind": "parent-state", "cls": cname, "pstate": ps, "in_world": True, "pool": pool,
+                                      "init": {"via": via0, "n0": 2}, "ops": ops})
     # foreign types through every membership path
     for cname in CLASSES:
         paths = _member_paths(cname)
@@ -595,6 +655,7 @@ class Env:
         self.pool = {}
         self.slits = {}
         self.geom_margin = 0.0
+        self.prepped = set()
         self.caller_lists = []             # (entry, list object) recently handed to container entry points
 
     # -- object pools -------------------------------------------------------------------------
@@ -960,7 +1021,10 @@ def op_assign(env, ctx, op):
         check_invariant(env, ctx, attr + "=")
         return
     after = snap_all(env, ctx)
+    last = {id(m): j for j, m in enumerate(env.members)}      # a member listed twice keeps the element assigned last
     for j, m in enumerate(env.members):
+        if last[id(m)] != j:
+            continue
         v = value if elems is None else elems[j]
         ok, got = _expected_read_ok(env, attr, m, v)
         if not ok:
@@ -1183,6 +1247,12 @@ def op_observe(env, ctx, op):
     mem = env.members
     counters = []
     has_irvb = False
+    uniq = []
+    for m in mem:
+        if not any(x is m for x in uniq):
+            uniq.append(m)
+    mult = [sum(1 for x in mem if x is u) for u in uniq]
+    mem = uniq
     for m in mem:
         m.render_engine = S["SerialEngine"]()
         m.quiet = True
@@ -1211,6 +1281,9 @@ def op_observe(env, ctx, op):
             drain_hook(env, ctx)
             return
     for j, (m, c) in enumerate(zip(mem, counters)):
+        if mult[j] != 1:
+            ctx.skip("member listed %d times: the unchanged code observes it once per entry; property silent" % mult[j])
+            continue
         ctx.mon("observe_members")
         ok = c.n_init == reps and c.n_final == reps
         if ok and not isinstance(m, S["BolometerIRVB"]):
@@ -1543,64 +1616,201 @@ def op_two_groups(env, ctx, op):
 # membership ops
 # ----------------------------------------------------------------------------------------------
 
+PSTATES = ["none", "world", "node", "other_child", "other_member", "this_child"]
+
+
+def prep_parent(env, idx):
+    """Put pool member idx into the initial scene-graph parent state its spec asks for (once, just before it is first
+    offered to the group): no parent / the world / a plain Node / child of ANOTHER group of the same class / member of
+    another group / already a child of THIS group. A fresh "other" group is used per member and never touched again."""
+    if idx in env.prepped:
+        return
+    env.prepped.add(idx)
+    S = env.S
+    ps = env.case["pool"][idx].get("pstate", "none")
+    m = env.member(idx)
+    if ps == "none":
+        return
+    if ps == "world":
+        m.parent = env.world if env.world is not None else S["World"]()
+    elif ps == "node":
+        nd = S["Node"](parent=env.world)
+        env.keep.append(nd)
+        m.parent = nd
+    elif ps in ("other_child", "other_member"):
+        og = env.G(parent=env.world, name="other")
+        env.keep.append(og)
+        if ps == "other_child":
+            m.parent = og
+        else:
+            getattr(og, _member_paths(env.cname)["add"][0])(m)
+    elif ps == "this_child":
+        if env.group is not None:
+            m.parent = env.group
+    else:
+        raise ValueError(ps)
+
+
+def _label(env, m):
+    """Initial state of an offered observer, from what is observable right before the call."""
+    S = env.S
+    g = env.group
+    if g is not None and any(x is m for x in env.members):
+        return "already-a-member"
+    par = m.parent
+    if par is None:
+        return "no-parent"
+    if g is not None and par is g:
+        return "already-parented-to-this-group"
+    if isinstance(par, S["World"]):
+        return "parented-to-world"
+    if isinstance(par, env.G):
+        mem = list(par.foil_detectors) if env.cname == CAMERA else list(par.observers)
+        return "member-of-another-group" if any(x is m for x in mem) else "parented-to-another-group"
+    return "parented-to-a-node"
+
+
+def _same(a, b):
+    return len(a) == len(b) and all(x is y for x, y in zip(a, b))
+
+
+def do_add(env, ctx, via, m):
+    """One add_* call, judged by the membership post-conditions of the statement: an accepted observer is a member
+    (for a new observer: the last one, everybody else untouched), its parent is the group. For an observer that is
+    already a member the statement does not say whether a second entry is kept, so [old..., m], the unchanged list
+    and a rejection that leaves the membership alone are all accepted."""
+    cn = env.cname
+    lab = _label(env, m)
+    was_member = lab == "already-a-member"
+    before = list(env.members)
+    ctx.mon("entry_states")
+    ctx.mon("entry:" + lab)
+    try:
+        check_add_keeps_caller_lists(env, ctx, via, lambda: getattr(env.group, via)(m))
+    except Exception as e:  # noqa
+        now = group_members(env)
+        if was_member:
+            ctx.skip("re-adding a member was rejected: property silent")
+            if not _same(now, before):
+                ctx.viol("add:%s:%s:rejected-but-membership-changed" % (cn, lab), "%s(member) raised %s and changed the membership" % (via, type(e).__name__))
+        else:
+            ctx.viol("add:%s:%s:raises-%s" % (cn, lab, type(e).__name__),
+                     "%s.%s(<valid observer, %s>) raised %s: %s" % (cn, via, lab, type(e).__name__, str(e)[:200]))
+        env.members = now
+        check_invariant(env, ctx, via)
+        return
+    now = group_members(env)
+    if not any(x is m for x in now):
+        ctx.viol("add:%s:%s:not-a-member" % (cn, lab),
+                 "%s.%s() accepted an observer (%s) without raising, but it is not among the members afterwards "
+                 "(len %d -> %d)" % (cn, via, lab, len(before), len(now)))
+    elif not was_member and not _same(now, before + [m]):
+        ctx.viol("add:%s:%s:not-appended-or-others-changed" % (cn, lab),
+                 "after %s.%s(<%s>) the members are not the previous members followed by the new observer" % (cn, via, lab))
+    elif was_member and not (_same(now, before + [m]) or _same(now, before) or _same(now, [x for x in before if x is not m] + [m])):
+        ctx.viol("add:%s:%s:others-changed" % (cn, lab), "re-adding a member through %s.%s changed other members / their order" % (cn, via))
+    if m.parent is not env.group:
+        ctx.viol("add:%s:%s:parent-not-the-group" % (cn, lab), "after %s.%s(<%s>) the observer's parent is %r" % (cn, via, lab, m.parent))
+    env.members = now                 # later ops judge their own step against the actual membership
+    ctx.nontrivial()
+    check_invariant(env, ctx, via)
+
+
+def do_set(env, ctx, entry, ms, kind, where):
+    """Constructor argument / observers= / sight_lines= / foil_detectors= with the observers ms (list or tuple)."""
+    cn = env.cname
+    labels = [_label(env, m) for m in ms]
+    dup = len({id(m) for m in ms}) != len(ms)
+    val = list(ms) if kind == "list" else tuple(ms)
+    before = list(env.members)
+    for lab in labels:
+        ctx.mon("entry_states")
+        ctx.mon("entry:" + lab)
+    try:
+        if entry == "ctor":
+            env.group = env.G(parent=env.world, name="grp", observers=val)
+        else:
+            setattr(env.group, entry, val)
+    except Exception as e:  # noqa
+        if entry == "ctor":
+            env.group = env.G(parent=env.world, name="grp")
+        now = group_members(env)
+        if dup:
+            ctx.skip("a member list naming the same observer twice was rejected: property silent")
+            if entry != "ctor" and not _same(now, before):
+                ctx.viol("assign:%s.%s:same-observer-listed-twice:rejected-but-membership-changed" % (cn, entry),
+                         "%s = <list with a repeated observer> raised %s and changed the membership" % (entry, type(e).__name__))
+        else:
+            ctx.viol("assign:%s.%s:raises-%s" % (cn, entry, type(e).__name__),
+                     "%s.%s given valid observers (%s) raised %s: %s" % (cn, entry, sorted(set(labels)), type(e).__name__, str(e)[:200]))
+        env.members = now
+        check_invariant(env, ctx, where)
+        return
+    now = group_members(env)
+    for m, lab in zip(ms, labels):
+        if not any(x is m for x in now):
+            ctx.viol("assign:%s.%s:%s:not-a-member" % (cn, entry, lab),
+                     "%s.%s accepted an observer (%s) without raising, but it is not among the members afterwards" % (cn, entry, lab))
+        elif m.parent is not env.group:
+            ctx.viol("assign:%s.%s:%s:parent-not-the-group" % (cn, entry, lab), "after %s.%s the observer's parent is %r" % (cn, entry, m.parent))
+    if dup:
+        ctx.mon("dup_assign")
+        first = []
+        for m in ms:
+            if not any(x is m for x in first):
+                first.append(m)
+        if not (_same(now, ms) or _same(now, first)):
+            ctx.viol("assign:%s.%s:same-observer-listed-twice:members-neither-as-listed-nor-deduplicated" % (cn, entry),
+                     "%d observers listed (one twice): the group holds %d members in another arrangement" % (len(ms), len(now)))
+        env.members = now
+    else:
+        env.members = list(ms)        # exact expectation; judged (members / len / parent / children) by check_invariant
+    if ms:
+        ctx.nontrivial()
+    check_invariant(env, ctx, where)
+    if isinstance(val, list):
+        check_container_alias(env, ctx, entry, val)
+        check_invariant(env, ctx, where + "+caller-edits-its-list")
+
+
 def build_group(env, ctx):
     case = env.case
     cn = env.cname
     init = case["init"]
     n0 = init["n0"]
     via = init["via"]
-    caller = None                   # (entry, caller-owned list) when a list was handed over
-    if cn == CAMERA:
-        env.group = env.G(parent=env.world, name="cam")
-        first = [env.member(i) for i in range(n0)]
-        if via == "add":
-            for m in first:
-                env.group.add_foil_detector(m)
-        else:
-            caller = ("foil_detectors", list(first))
-            env.group.foil_detectors = caller[1]
+    idxs = list(range(n0))
+    if via in ("ctor_list", "ctor_tuple") and cn != CAMERA:
+        for i in idxs:
+            prep_parent(env, i)
+        do_set(env, ctx, "ctor", [env.member(i) for i in idxs], "list" if via == "ctor_list" else "tuple", "init-" + via)
+        return
+    env.group = env.G(parent=env.world, name="cam" if cn == CAMERA else "grp")
+    for i in idxs:
+        prep_parent(env, i)
+    first = [env.member(i) for i in idxs]
+    paths = _member_paths(cn)
+    if via == "add":
+        for m in first:
+            do_add(env, ctx, paths["add"][0], m)
+    elif via in ("set_list", "set_tuple"):
+        do_set(env, ctx, paths["set"][0] if cn != CAMERA else "foil_detectors", first, "list" if via == "set_list" or cn == CAMERA else "tuple",
+               "init-" + via)
     else:
-        first = [env.member(i) for i in range(n0)]
-        if via == "ctor_list":
-            caller = ("ctor", list(first))
-            env.group = env.G(parent=env.world, name="grp", observers=caller[1])
-        elif via == "ctor_tuple":
-            env.group = env.G(parent=env.world, name="grp", observers=tuple(first))
-        else:
-            env.group = env.G(parent=env.world, name="grp")
-            if via == "add":
-                for m in first:
-                    env.group.add_observer(m)
-            elif via == "set_list":
-                caller = ("observers", list(first))
-                env.group.observers = caller[1]
-            elif via == "set_tuple":
-                env.group.observers = tuple(first)
-            else:
-                raise ValueError(via)
-    env.members = list(first)
-    check_invariant(env, ctx, "init-" + via)
-    if caller is not None:
-        check_container_alias(env, ctx, caller[0], caller[1])
-        check_invariant(env, ctx, "init-" + via + "+caller-edits-its-list")
+        raise ValueError(via)
+    if not first:
+        check_invariant(env, ctx, "init-" + via)
 
 
 def op_add(env, ctx, op):
-    m = env.member(op["m"])
-    check_add_keeps_caller_lists(env, ctx, op["via"], lambda: getattr(env.group, op["via"])(m))
-    env.members.append(m)
-    check_invariant(env, ctx, op["via"])
+    prep_parent(env, op["m"])
+    do_add(env, ctx, op["via"], env.member(op["m"]))
 
 
 def op_set_members(env, ctx, op):
-    ms = [env.member(i) for i in op["ms"]]
-    val = list(ms) if op["kind"] == "list" else tuple(ms)
-    setattr(env.group, op["via"], val)
-    env.members = list(ms)
-    check_invariant(env, ctx, op["via"] + "=")
-    if isinstance(val, list):
-        check_container_alias(env, ctx, op["via"], val)
-        check_invariant(env, ctx, op["via"] + "=+caller-edits-its-list")
+    for i in op["ms"]:
+        prep_parent(env, i)
+    do_set(env, ctx, op["via"], [env.member(i) for i in op["ms"]], op["kind"], op["via"] + "=")
 
 
 def op_connect(env, ctx, op):
